@@ -157,9 +157,98 @@ func canonCmd(out *cq.Out, seed uint64, tier string) {
 			r.close()
 		}
 	}
+	canonLarge(out, rng, seed, tier)
 	f, _ := os.Create(out.Dir + "/cases.v")
 	fmt.Fprintf(f, "From Coq Require Import List NArith Uint63.\nFrom QV Require Import Run.HistRun Run.BalloonRun.\nImport ListNotations.\nOpen Scope uint63_scope.\n")
 	fmt.Fprintf(f, "Definition cases : list (list step) := %s.\n", cq.List(cases))
 	fmt.Fprintf(f, "Definition R := Eval vm_compute in run_balloon_cases cases.\nPrint R.\n")
 	f.Close()
+}
+
+// canonLarge: a log of more than 1000 events (thorough: 40000, more entries than any bounded cache could hold), a node
+// that is closed and reopened on the same store and a twin that never stops: the snapshots of all later insertions must
+// be identical, and events inserted before the reopen must still be provable on the reopened node.  (Go against Go:
+// the digests of the never-stopped twin are themselves compared with the model on the small cases.)
+func canonLarge(out *cq.Out, rng *cq.Rng, seed uint64, tier string) {
+	n := 1300 + rng.Intn(200)
+	if tier == "thorough" {
+		n = 40000
+	}
+	desc := map[string]interface{}{"seed": seed, "large_log_events": n}
+	out.Note(desc)
+	a, b := newBRun(), newBRun()
+	var events [][]byte
+	mk := func(k int) [][]byte {
+		var evs [][]byte
+		for j := 0; j < k; j++ {
+			evs = append(evs, rng.Bytes(32))
+		}
+		return evs
+	}
+	for len(events) < n {
+		evs := mk(100 + rng.Intn(200))
+		sa := a.add(evs, false)
+		sb := b.add(evs, false)
+		if a.addPanic != "" || b.addPanic != "" || len(sa) != len(sb) {
+			out.Violate("C04:hyper-depends-on-grouping-or-restart", "insertion failed on the large log: "+a.addPanic+b.addPanic, desc)
+			return
+		}
+		events = append(events, evs...)
+	}
+	last := a.snaps[len(a.snaps)-1]
+	b.reopen()
+	// old events on the reopened node
+	for t := 0; t < 30; t++ {
+		ei := rng.Intn(len(events))
+		q := last.Version
+		o := b.query(events[ei], &q)
+		okv := -1
+		if o.class == 0 && o.exists {
+			okv, _ = wireVerify(o.proof, nil, events[ei], last.HistoryDigest, last.HyperDigest)
+		}
+		if okv != 0 {
+			out.Violate("C08:proof-after-reopen", fmt.Sprintf("after close/reopen of a %d-event log the proof for event %d does not verify against the snapshot issued before (class %d verdict %d)", len(events), ei, o.class, okv), desc)
+			break
+		}
+		out.Case(fmt.Sprintf("large:proof:%d", t), true)
+	}
+	// later insertions: reopened node against the twin
+	for t := 0; t < 6; t++ {
+		evs := mk(1 + rng.Intn(4))
+		single := len(evs) == 1
+		sa := a.add(evs, single)
+		sb := b.add(evs, single)
+		if a.addPanic != "" || b.addPanic != "" || len(sa) != len(sb) {
+			out.Violate("C04:hyper-depends-on-grouping-or-restart", "insertion after the reopen of a large log failed: "+a.addPanic+b.addPanic, desc)
+			break
+		}
+		bad := false
+		for i := range sa {
+			if !bytes.Equal(sa[i].HistoryDigest, sb[i].HistoryDigest) {
+				out.Violate("C04:history-depends-on-grouping-or-restart", fmt.Sprintf("history digest of version %d differs between a node reopened after %d events and one that never stopped", sa[i].Version, n), desc)
+				bad = true
+			}
+			if !bytes.Equal(sa[i].HyperDigest, sb[i].HyperDigest) {
+				out.Violate("C04:hyper-depends-on-grouping-or-restart", fmt.Sprintf("hyper digest of version %d differs between a node reopened after %d events and one that never stopped", sa[i].Version, n), desc)
+				bad = true
+			}
+		}
+		out.Case(fmt.Sprintf("large:add:%d", t), true)
+		if bad {
+			break
+		}
+	}
+	// and a third node opened now on the twin's store must agree with the twin, which has run since the beginning
+	// (a bounded in-memory structure that forgets shows up here)
+	a2 := a
+	a2.reopen()
+	evs := mk(2)
+	sa := a2.add(evs, false)
+	sb := b.add(evs, false)
+	if len(sa) == len(sb) && len(sa) > 0 && !bytes.Equal(sa[len(sa)-1].HyperDigest, sb[len(sb)-1].HyperDigest) {
+		out.Violate("C04:hyper-depends-on-grouping-or-restart", "two nodes holding the same large log issue different hyper digests for the same next insertion", desc)
+	}
+	out.Count("large_log_events", n)
+	a.close()
+	b.close()
 }
